@@ -15,13 +15,33 @@
 #include <stdlib.h>
 #include <string.h>
 #include <errno.h>
+#include <pthread.h>
 
 #define MAX_EVENTS 64
 
+/* Capacity of the completion ring. A post that finds the ring full fails with -1
+ * (it is never merged with or substituted for another completion). */
+#define COMPLETION_RING_SIZE 1024
+
+typedef struct {
+    uintptr_t key;
+    uintptr_t data;
+} completion_entry_t;
+
 struct async_runtime_s {
     int epoll_fd;
-    int event_fd;  /* For worker completions */
+    int event_fd;  /* Doorbell only: its counter value carries no information */
     console_type_t console_type;  /* Detected console type */
+
+    /* Posted completions travel through this mutex-protected FIFO ring; the eventfd
+     * is written after each push so that epoll_wait() wakes up. An eventfd counter
+     * ADDS concurrent writes, so it cannot carry (key,data) itself: two posts (or a
+     * post and a wakeup) landing between two waits would be summed into one bogus
+     * event. */
+    pthread_mutex_t ring_lock;
+    completion_entry_t ring[COMPLETION_RING_SIZE];
+    size_t ring_head;   /* index of the oldest entry */
+    size_t ring_count;  /* number of queued entries */
 };
 
 /* Helper functions */
@@ -73,11 +93,17 @@ async_runtime_t* async_runtime_init(void) {
         return NULL;
     }
     
+    pthread_mutex_init(&runtime->ring_lock, NULL);
+    runtime->ring_head = 0;
+    runtime->ring_count = 0;
+    
     return runtime;
 }
 
 void async_runtime_deinit(async_runtime_t* runtime) {
     if (!runtime) return;
+    
+    pthread_mutex_destroy(&runtime->ring_lock);
     
     if (runtime->event_fd >= 0) {
         close(runtime->event_fd);
@@ -148,19 +174,35 @@ int async_runtime_wait(async_runtime_t* runtime, io_event_t* events,
     for (int i = 0; i < result && event_count < max_events; i++) {
         /* Check if this is the eventfd */
         if (epoll_events[i].data.fd == runtime->event_fd) {
-            /* Drain eventfd and decode worker completions */
+            /* Reset the doorbell FIRST, then take the queued completions: an entry
+             * pushed after the ring was emptied rings the doorbell again, so it is
+             * seen by the next wait. A plain wakeup leaves the ring empty and
+             * produces no event. */
             uint64_t val;
             while (read(runtime->event_fd, &val, sizeof(val)) == sizeof(val)) {
-                if (event_count < max_events) {
-                    events[event_count].fd = -1;
-                    events[event_count].completion_key = (uintptr_t)(val >> 32);
-                    events[event_count].context = NULL;
-                    events[event_count].event_type = EVENT_READ;
-                    events[event_count].bytes_transferred = (int)(val & 0xFFFFFFFF);
-                    events[event_count].buffer = NULL;
-                    event_count++;
-                }
+                /* counter value is meaningless */
             }
+            pthread_mutex_lock(&runtime->ring_lock);
+            while (runtime->ring_count > 0 && event_count < max_events) {
+                completion_entry_t* e = &runtime->ring[runtime->ring_head];
+                events[event_count].fd = -1;
+                events[event_count].completion_key = e->key;
+                events[event_count].context = NULL;
+                events[event_count].event_type = EVENT_READ;
+                events[event_count].bytes_transferred = (size_t)e->data;
+                events[event_count].buffer = NULL;
+                event_count++;
+                runtime->ring_head = (runtime->ring_head + 1) % COMPLETION_RING_SIZE;
+                runtime->ring_count--;
+            }
+            if (runtime->ring_count > 0) {
+                /* Caller's event array is full: ring again so the rest is delivered
+                 * by the next wait. */
+                uint64_t one = 1;
+                ssize_t w = write(runtime->event_fd, &one, sizeof(one));
+                (void)w;
+            }
+            pthread_mutex_unlock(&runtime->ring_lock);
         } else {
             /* Regular I/O event */
             events[event_count].fd = epoll_events[i].data.fd;
@@ -179,8 +221,19 @@ int async_runtime_wait(async_runtime_t* runtime, io_event_t* events,
 int async_runtime_post_completion(async_runtime_t* runtime, uintptr_t completion_key, uintptr_t data) {
     if (!runtime || runtime->event_fd < 0) return -1;
     
-    /* Write to eventfd to wake up epoll_wait */
-    uint64_t val = (((uint64_t)completion_key) << 32) | (data & 0xFFFFFFFF);
+    /* Queue the completion, then ring the doorbell to wake up epoll_wait */
+    pthread_mutex_lock(&runtime->ring_lock);
+    if (runtime->ring_count >= COMPLETION_RING_SIZE) {
+        pthread_mutex_unlock(&runtime->ring_lock);
+        return -1;  /* ring full: reported to the caller, nothing is overwritten */
+    }
+    size_t slot = (runtime->ring_head + runtime->ring_count) % COMPLETION_RING_SIZE;
+    runtime->ring[slot].key = completion_key;
+    runtime->ring[slot].data = data;
+    runtime->ring_count++;
+    pthread_mutex_unlock(&runtime->ring_lock);
+    
+    uint64_t val = 1;
     ssize_t n = write(runtime->event_fd, &val, sizeof(val));
     
     return (n == sizeof(val)) ? 0 : -1;
